@@ -15,7 +15,7 @@ rsync -a --exclude target --exclude .cargo /verif/harness/ /tmp/rvscratch/seedva
 grep -rl '"/repo/' /tmp/rvscratch/seedval/harness --include=Cargo.toml | xargs -r sed -i 's#"/repo/#"/tmp/rvscratch/seedval/repo/#g'
 cd /tmp/rvscratch/seedval/harness && cargo build --release --offline -p "$bin" 2>&1 | grep -E "^error|Finished" | tail -2
 for chk in "$@"; do
-  VERIF_SEED=${VERIF_SEED:-1} /tmp/rvscratch/seedval/target/release/$bin $chk quick 2>&1 | grep -E "VIOLATION|KNOWN|SUMMARY|INCONCL" | cut -c1-230 | head -6
+  VERIF_SEED=${VERIF_SEED:-1} /tmp/rvscratch/seedval/target/release/$bin $chk ${TIER:-quick} 2>&1 | grep -E "VIOLATION|KNOWN|SUMMARY|INCONCL" | cut -c1-230 | head -6
 done
 cd /tmp/rvscratch/seedval/repo && git checkout -q -- .
 } > "$log" 2>&1
